@@ -133,6 +133,9 @@ def apply_case_env(case, idx=None):
             e['companion'] = idx // 6
         if idx % 6 == 4 and not os.environ.get('VF_NO_DEBUGLOG'):
             e['debuglog'] = True
+        if idx % 6 == 2:
+            # connect() called with positional arguments, in the documented order
+            e['positional'] = True
         case['_env'] = e
     old = CASE_ENV.get('_companion_obj')
     if old is not None:
